@@ -9,6 +9,7 @@ import (
 	"reflect"
 	"runtime"
 	"strings"
+	"sync/atomic"
 	"time"
 
 	kmip "github.com/smira/go-kmip"
@@ -16,6 +17,7 @@ import (
 	"kvharness/internal/drv"
 	"kvharness/internal/gen"
 	"kvharness/internal/mut"
+	"kvharness/internal/render"
 )
 
 // ---- C05: Decode allocation is bounded by the bytes received --------------------------------------------------
@@ -315,6 +317,7 @@ func runC05(r *Result, d *drv.Driver, tier string, seed int64, replay string) {
 	c05Fragmented(r)
 	c05Faults(r)
 	c05History(r)
+	c05ReusedDestination(r)
 	c05DeepSkip(r)
 }
 
@@ -447,6 +450,82 @@ func c05History(r *Result) {
 	}
 }
 
+// c05ReusedDestination: the other thing that has a history is the VALUE handed to Decode - an application that decodes every
+// message of a connection into the same variable. A Request / Response that has just received a message with 2 000 / 20 000
+// batch items (or a long attribute list) is handed to Decode again, by the same or a fresh Decoder, with a small message: the
+// second call's allocation is bounded in the bytes of the second message, and its result is the second message.
+func c05ReusedDestination(r *Result) {
+	ver := kmip.ProtocolVersion{Major: 1, Minor: 4}
+	enc := func(v interface{}) []byte {
+		var b bytes.Buffer
+		if err := kmip.NewEncoder(&b).Encode(v); err != nil {
+			return nil
+		}
+		return b.Bytes()
+	}
+	small := enc(&kmip.Request{Header: kmip.RequestHeader{Version: ver, BatchCount: 1},
+		BatchItems: []kmip.RequestBatchItem{{Operation: kmip.OPERATION_GET, RequestPayload: kmip.GetRequest{UniqueIdentifier: "0123456789"}}}})
+	smallResp := enc(&kmip.Response{Header: kmip.ResponseHeader{Version: ver, TimeStamp: time.Unix(1000000000, 0), BatchCount: 1},
+		BatchItems: []kmip.ResponseBatchItem{{Operation: kmip.OPERATION_GET_ATTRIBUTE_LIST, ResponsePayload: kmip.GetAttributeListResponse{UniqueIdentifier: "k", AttributeNames: []string{"Name"}}}}})
+	for _, n := range []int{2000, 20000} {
+		items := make([]kmip.RequestBatchItem, n)
+		for i := range items {
+			items[i] = kmip.RequestBatchItem{Operation: kmip.OPERATION_GET, RequestPayload: kmip.GetRequest{UniqueIdentifier: "k"}}
+		}
+		big := enc(&kmip.Request{Header: kmip.RequestHeader{Version: ver, BatchCount: int32(n)}, BatchItems: items})
+		ritems := make([]kmip.ResponseBatchItem, n)
+		for i := range ritems {
+			ritems[i] = kmip.ResponseBatchItem{Operation: kmip.OPERATION_DESTROY, ResponsePayload: kmip.DestroyResponse{UniqueIdentifier: "k"}}
+		}
+		bigResp := enc(&kmip.Response{Header: kmip.ResponseHeader{Version: ver, TimeStamp: time.Unix(1000000000, 0), BatchCount: int32(n)}, BatchItems: ritems})
+		for _, sameDecoder := range []bool{false, true} {
+			for _, c := range []struct {
+				name          string
+				first, second []byte
+				dest, fresh   interface{}
+			}{
+				{"Request", big, small, &kmip.Request{}, &kmip.Request{}},
+				{"Response", bigResp, smallResp, &kmip.Response{}, &kmip.Response{}},
+			} {
+				if c.first == nil || c.second == nil {
+					r.find(Finding{Kind: "disagreement", What: "cannot encode the destination-reuse messages", Input: c.name})
+					continue
+				}
+				key := fmt.Sprintf("reused destination: a %s variable that has just received a message with %d batch items is handed to Decode again (same Decoder: %v) with a %d-byte message", c.name, n, sameDecoder, len(c.second))
+				crumb("C05 " + key)
+				r.eval(key, true)
+				var d1, d2 *kmip.Decoder
+				if sameDecoder {
+					d1 = kmip.NewDecoder(bytes.NewReader(append(append([]byte(nil), c.first...), c.second...)))
+					d2 = d1
+				} else {
+					d1 = kmip.NewDecoder(bytes.NewReader(c.first))
+					d2 = kmip.NewDecoder(bytes.NewReader(c.second))
+				}
+				if err := d1.Decode(c.dest); err != nil {
+					r.find(Finding{Kind: "disagreement", What: "the honest first message of a destination-reuse scenario was not decoded", Input: key, Actual: err.Error()})
+					continue
+				}
+				var m0, m1 runtime.MemStats
+				runtime.ReadMemStats(&m0)
+				err := d2.Decode(c.dest)
+				runtime.ReadMemStats(&m1)
+				alloc := m1.TotalAlloc - m0.TotalAlloc
+				r.Stats["reused-destination-measurements"]++
+				bound := uint64(allocA*len(c.second) + allocB)
+				if alloc > bound {
+					r.find(Finding{Kind: "violation", What: "a Decode call allocated more than the linear bound in the bytes available to it: the allocation follows what the destination value held before the call",
+						Input: map[string]string{"scenario": key, "second_message": hx(c.second)}, Expect: fmt.Sprintf("<= %d", bound), Actual: fmt.Sprintf("%d (outcome: %v)", alloc, err)})
+				}
+				if e2 := kmip.NewDecoder(bytes.NewReader(c.second)).Decode(c.fresh); err != nil || e2 != nil || !reflect.DeepEqual(c.dest, c.fresh) {
+					r.find(Finding{Kind: "violation", What: "decoding into a value that held an earlier message does not give the message decoded", Input: map[string]string{"scenario": key, "second_message": hx(c.second)},
+						Expect: render.Top(c.fresh), Actual: fmt.Sprintf("%s (errors %v, %v)", render.Top(c.dest), err, e2)})
+				}
+			}
+		}
+	}
+}
+
 type tempNetErr struct{ timeout bool }
 
 func (e tempNetErr) Error() string   { return "harness: transient transport fault" }
@@ -457,13 +536,15 @@ func (e tempNetErr) Temporary() bool { return true }
 // deadline that has passed stays passed - `persist` times, and a permanent error after that (so that a Decode that keeps
 // asking still comes back and can be measured)
 type faultReader struct {
-	data    []byte
-	cut     int
-	step    int
-	fault   error
-	persist int
-	pos     int
-	faults  int
+	data     []byte
+	cut      int
+	step     int
+	fault    error
+	persist  int
+	pos      int
+	faults   int
+	faults64 int64
+	gaveUp   int32
 }
 
 func (f *faultReader) Read(p []byte) (int, error) {
@@ -479,12 +560,16 @@ func (f *faultReader) Read(p []byte) (int, error) {
 		f.pos += n
 		return n, nil
 	}
-	f.faults++
-	if f.faults > f.persist {
+	n := atomic.AddInt64(&f.faults64, 1)
+	f.faults = int(n)
+	if f.faults > f.persist || atomic.LoadInt32(&f.gaveUp) == 1 {
 		return 0, io.ErrClosedPipe
 	}
 	return 0, f.fault
 }
+
+func (f *faultReader) failed() int { return int(atomic.LoadInt64(&f.faults64)) }
+func (f *faultReader) giveUp()     { atomic.StoreInt32(&f.gaveUp, 1) }
 
 // c05Faults: the transport fails in the middle of a message - at every 8-byte boundary and inside every item, string payloads
 // included - with an error that stays (a passed read deadline: net.Error, Timeout() and Temporary() both true; a temporary
